@@ -1435,6 +1435,122 @@ def _compare(ctx, name, mod, runs):
             _handle_mismatches(ctx, mname, mod, mism, cases)
 
 
+
+# --------------------------------------------------------------------------
+# FIXED boundary grid for subscripts and slices (no random choice: the same programs in every run and tier).
+# Every function is `f(x, n, it, v, w)`: `n` selects ONE expression, whose text is returned with the result, so a
+# mismatch names the exact subscript.  Template names (= violation keys) are `slice-grid:<op>:<base>`.
+
+_G_LIT = ["", "None", "0", "1", "-1", "2", "-2", "True", "False", "1-1", "len(x)", "len(x)-1", "-len(x)"]
+_G_STEP = ["", "None", "1", "2", "-1", "-2", "0", "True", "False", "1-1", "-(1-1)-1"]
+_G_STEP_PAIRS = [("", ""), ("0", "0"), ("1", "-1"), ("-1", "0"), ("None", "None"), ("1-1", "1-1"), ("0", ""), ("", "0"),
+                 ("-1", ""), ("len(x)", "0"), ("False", "True")]
+_G_VAR = ["v:", ":v", "v:w", "v:0", "0:v", "v:1-1", "::v", "v::w", "w:v:-1", "v:w:v", "0:0:v", ":v:w"]
+_G_IDX = ["0", "1", "-1", "2", "-2", "True", "False", "1-1", "len(x)-1", "-len(x)", "len(x)", "-len(x)-1", "v", "w", "-v", "v-1"]
+_G_MD = ["0:1, 2", "..., 0", ":, :0", "::2, 1:0", "0:, None", "1-1:, :1-1", "(0, 1)", "0, 1", "..., :0, ...", ":0,", "0:,",
+         "v:w, ::v", "slice(0, None)", "slice(None, 0), 0:", "None:None, 0:0:0", "False:, :False", "-1:0:-1, ...", "(q := v)", "(q := 0):(q := 1)"]
+_G_VALS = ["None", "0", "1", "-1", "2", "-2", "True", "False", "5", "4", "-5", "6", "-6"]
+
+
+def _g_slices():
+    out = ["%s:%s" % (a, b) for a in _G_LIT for b in _G_LIT]
+    out += ["%s:%s:%s" % (a, b, c) for (a, b) in _G_STEP_PAIRS for c in _G_STEP]
+    return out
+
+
+_G_READ_BASES = [   # (name, setup lines, base expression, args source for x)
+    ("list-arg", [], "x", "[10, 11, 12, 13, 14]"), ("tuple-arg", [], "x", "(10, 11, 12, 13, 14)"),
+    ("str-arg", [], "x", "'abcde'"), ("bytes-arg", [], "x", "b'abcde'"), ("bytearray-arg", [], "x", "bytearray(b'abcde')"),
+    ("range-arg", [], "x", "range(10, 15)"),
+    ("list-literal", [], "[10, 11, 12, 13, 14]", "'abcde'"), ("tuple-literal", [], "(10, 11, 12, 13, 14)", "'abcde'"),
+    ("str-literal", [], "'abcde'", "'abcde'"), ("bytes-literal", [], "b'abcde'", "'abcde'"),
+    ("list-local", ["y = [10, 11, 12, 13, 14]"], "y", "'abcde'"), ("tuple-local", ["y = (10, 11, 12, 13, 14)"], "y", "'abcde'"),
+    ("str-local", ["y = 'abcde'"], "y", "'abcde'"), ("bytes-local", ["y = b'abcde'"], "y", "'abcde'"),
+    ("list-cast", ["y = list(x)"], "y", "(10, 11, 12, 13, 14)"),
+    ("logging-container", ["y = _LC(list(x), 'c')"], "y", "(10, 11, 12, 13, 14)"),
+]
+_G_WRITE_BASES = [  # (name, setup, args source for x, items source, scalar source)
+    ("list-arg", ["y = x"], "[10, 11, 12, 13, 14]", "[7, 8]", "99"),
+    ("list-cast", ["y = list(x)"], "(10, 11, 12, 13, 14)", "[7, 8]", "99"),
+    ("list-local", ["y = [10, 11, 12, 13, 14]"], "'abcde'", "[7, 8]", "99"),
+    ("bytearray", ["y = bytearray(x)"], "b'abcde'", "b'xy'", "65"),
+    ("logging-container", ["y = _LC(list(x), 'c')"], "(10, 11, 12, 13, 14)", "[7, 8]", "99"),
+]
+
+
+def _g_function(fn, tname, setup, branches):
+    """branches: list of (label, statements, result expression)"""
+    lines = ["# template: " + tname, "def %s(x, n, it, v, w):" % fn] + ["    " + st for st in setup]
+    for i, (label, stmts, res) in enumerate(branches):
+        lines.append("    if n == %d:" % i)
+        lines += ["        " + st for st in stmts]
+        lines.append("        return (%r, %s)" % (label, res))
+    lines.append("    return 'no-such-branch'")
+    return "\n".join(lines) + "\n"
+
+
+def grid_functions():
+    """-> list of (template_name, function_source_with_placeholder_name, [args_src per case])"""
+    fs = []
+    sl = _g_slices()
+
+    def add(tname, setup, branches, xsrc, itsrc="[7, 8]", vw=("0", "0")):
+        cases = ["(%s, %d, %s, %s, %s, )" % (xsrc, i, itsrc, vw[0], vw[1]) for i in range(len(branches))]
+        fs.append((tname, setup, branches, cases))
+
+    def addvar(tname, setup, mk, xsrc, itsrc="[7, 8]"):
+        branches = [mk(e) for e in _G_VAR]
+        cases = ["(%s, %d, %s, %s, %s, )" % (xsrc, i, itsrc, v, w) for i in range(len(branches))
+                 for v in _G_VALS for w in ("None", "0", "1", "-1", "False")]
+        fs.append((tname, setup, branches, cases))
+    for name, setup, base, xsrc in _G_READ_BASES:
+        add("slice-grid:read:" + name, setup, [("%s[%s]" % (base, e), [], "%s[%s]" % (base, e)) for e in sl], xsrc)
+        addvar("slice-grid:read-var:" + name, setup, lambda e: ("%s[%s]" % (base, e), [], "%s[%s]" % (base, e)), xsrc)
+        idx = [("%s[%s]" % (base, e), [], "%s[%s]" % (base, e)) for e in _G_IDX]
+        cases = ["(%s, %d, [7, 8], %s, %s, )" % (xsrc, i, v, w) for i in range(len(idx)) for (v, w) in
+                 (("0", "0"), ("1", "-1"), ("-1", "4"), ("5", "-5"), ("True", "False"), ("-6", "6"), ("None", "1.0"))]
+        fs.append(("slice-grid:index-read:" + name, setup, idx, cases))
+    for name, setup, xsrc, itsrc, sc in _G_WRITE_BASES:
+        res = "y"
+        add("slice-grid:assign:" + name, setup, [("y[%s] = it" % e, ["y[%s] = it" % e], res) for e in sl], xsrc, itsrc)
+        add("slice-grid:delete:" + name, setup, [("del y[%s]" % e, ["del y[%s]" % e], res) for e in sl], xsrc, itsrc)
+        add("slice-grid:augassign:" + name, setup, [("y[%s] += it" % e, ["y[%s] += it" % e], res) for e in sl], xsrc, itsrc)
+        addvar("slice-grid:assign-var:" + name, setup, lambda e: ("y[%s] = it" % e, ["y[%s] = it" % e], "y"), xsrc, itsrc)
+        addvar("slice-grid:delete-var:" + name, setup, lambda e: ("del y[%s]" % e, ["del y[%s]" % e], "y"), xsrc, itsrc)
+        addvar("slice-grid:augassign-var:" + name, setup, lambda e: ("y[%s] += it" % e, ["y[%s] += it" % e], "y"), xsrc, itsrc)
+        ib = []
+        for e in _G_IDX:
+            ib += [("y[%s] = %s" % (e, sc), ["y[%s] = %s" % (e, sc)], "y"), ("del y[%s]" % e, ["del y[%s]" % e], "y"),
+                   ("y[%s] += 1" % e, ["y[%s] += 1" % e], "y")]
+        cases = ["(%s, %d, %s, %s, %s, )" % (xsrc, i, itsrc, v, w) for i in range(len(ib)) for (v, w) in
+                 (("0", "0"), ("1", "-1"), ("-1", "4"), ("5", "-5"), ("True", "False"), ("-6", "6"))]
+        fs.append(("slice-grid:index-write:" + name, setup, ib, cases))
+    # multi-dimensional / extended subscripts: the key OBJECT handed to __getitem__ / __setitem__ / __delitem__
+    for dname, dsetup in (("list-data", ["y = _LC(list(x), 'c')"]), ("dict-data", ["y = _LC({}, 'c')"])):
+        md = []
+        for e in _G_MD:
+            md += [("y[%s]" % e, [], "y[%s]" % e), ("y[%s] = it" % e, ["y[%s] = it" % e], "y"),
+                   ("del y[%s]" % e, ["del y[%s]" % e], "y"), ("y[%s] += it" % e, ["y[%s] += it" % e], "y")]
+        cases = ["((10, 11, 12), %d, [7], %s, %s, )" % (i, v, w) for i in range(len(md)) for (v, w) in (("0", "0"), ("None", "1"), ("-1", "2"))]
+        fs.append(("slice-grid:multidim:" + dname, dsetup, md, cases))
+    return fs
+
+
+def grid_modules(per_module=7):
+    fs = grid_functions()
+    mods = []
+    for start in range(0, len(fs), per_module):
+        fsrcs, tmpl, cases = {}, {}, []
+        for k, (tname, setup, branches, cs) in enumerate(fs[start:start + per_module]):
+            src = _g_function("f%d" % k, tname, setup, branches)
+            compile(src, tname, "exec")
+            fsrcs[k] = src
+            tmpl[k] = tname
+            cases += [(k, a) for a in cs]
+        mods.append({"fsrcs": fsrcs, "tmpl": tmpl, "cases": cases, "source": assemble(fsrcs)})
+    return mods
+
+
 def run_search(ctx, n_modules=None, n_funcs=None, templates=None):
     """SEARCH leg of C01: compiled pure-Python modules vs CPython on generated programs."""
     g = Gen(ctx.rng)
@@ -1452,6 +1568,11 @@ def run_search(ctx, n_modules=None, n_funcs=None, templates=None):
         mods.append(gen_module(g, pick))
     tag = "s%d" % (ctx.seed % 100000)
     mnames = ["c01%s_m%d" % (tag, i) for i in range(nmod)]
+    if templates is None or any(t.startswith("slice-grid") for t in templates):
+        gm = grid_modules()          # the fixed subscript / slice boundary grid: always part of the corpus
+        mods += gm
+        mnames += ["c01grid_m%d" % i for i in range(len(gm))]
+        ctx.notes["search_grid"] = {"modules": len(gm), "cases": sum(len(m["cases"]) for m in gm)}
     sos = cybuild.build_many(ctx, [{"name": n, "source": m["source"], "ext": ".py"} for n, m in zip(mnames, mods)])
     for n, m, so in zip(mnames, mods, sos):
         if isinstance(so, cybuild.BuildError):
